@@ -6,7 +6,7 @@
      walk / parse_moves_walk / game_entries_walk / first_ten
      BInv / build_inv / offers_legal / offers_recorded *)
 From WV Require Import Types Bits Attacks Board MoveEnc MoveGen Rules Abs Wf Encode Text Notation Book.
-From WV Require Import PosEq ApplyProofs LegalPosProofs PlayProofs GenLegal.
+From WV Require Import PosEq ApplyProofs LegalPosProofs PlayProofs GenLegal HashProofs.
 From Coq Require Import Lia ZifyBool ZifyN ZifyNat List.
 Import ListNotations.
 Import WV.Bits.
@@ -228,6 +228,19 @@ Qed.
 Definition HashFaithful : Prop := forall s1 s2, LegalPos s1 -> LegalPos s2 -> hash hs s1 = hash hs s2 ->
   MoveGen.legal_moves s1 = MoveGen.legal_moves s2.
 
+(* the residue follows from the absence of collisions between legal positions with different rule keys
+   (placement, side to move, rights, capturable e.p. target: HashProofs.rulekey, property C08) *)
+Definition HashSeparates : Prop := forall s1 s2, LegalPos s1 -> LegalPos s2 -> hash hs s1 = hash hs s2 ->
+  rulekey s1 = rulekey s2.
+
+Lemma separates_faithful : HashSeparates -> HashFaithful.
+Proof.
+  intros H s1 s2 H1 H2 E. unfold MoveGen.legal_moves. apply same_key_same_moves.
+  - unfold LegalPos, legal_posb in H1. apply andb_true_iff in H1. exact (proj1 H1).
+  - unfold LegalPos, legal_posb in H2. apply andb_true_iff in H2. exact (proj1 H2).
+  - exact (H s1 s2 H1 H2 E).
+Qed.
+
 Lemma lookup_find : forall b s ms, lookup hs b s = Some ms -> book_find b (hash hs s) = Some ms /\ ms <> [].
 Proof.
   intros b s ms H. unfold lookup in H. destruct (book_find b (hash hs s)) as [[|m tl]|]; try discriminate H.
@@ -303,6 +316,20 @@ Proof.
   destruct (walk_nth _ _ _ Hw HL i h m Hi) as [si [t [q [n (HLi & Hh & _ & _ & _ & Hm & _)]]]].
   exists g, es, i, si. repeat split; auto.
   assert (i < length es)%nat by (apply nth_error_Some; rewrite Hi; discriminate). lia.
+Qed.
+
+(* both together: an offered move is the i-th entry (i < 10) of some game, recorded for a legal position with
+   the hash of s, in which it is legal *)
+Theorem offers_indexed : forall games b s ms m, LegalPos start -> build hs start games [] = Some b ->
+  lookup hs b s = Some ms -> In m ms ->
+  exists g es i si, In g games /\ game_entries hs start g = Some es /\ (i < 10)%nat /\
+    nth_error es i = Some (hash hs si, m) /\ LegalPos si /\ hash hs si = hash hs s /\
+    In m (MoveGen.legal_moves si).
+Proof.
+  intros games b s ms m HL Hb Hl Hin.
+  apply (proj1 (offers_recorded games b s Hb) ms m Hl) in Hin.
+  destruct (recorded_indexed games _ m HL Hin) as [g [es [i [si (H1 & H2 & H3 & H4 & H5 & H6 & H7)]]]].
+  exists g, es, i, si. rewrite <- H6. repeat split; auto.
 Qed.
 
 End Book.
